@@ -107,6 +107,10 @@ def r1(ctx, retsets):
             ctx.check(v == ("c", MAX), "C13.R1", "rtr_init:version", s.loc(), "socket opens with version %s (highest supported: %d)" % (vf.show(v), MAX),
                       key="C13.R1:init")
             continue
+        if not _reached(pdb, fn, s, retsets):
+            # the copy of a shared helper inside a caller that switches this part off with a constant argument
+            ctx.ok("C13.R1", "%s:version-store-unreachable" % fn.name, s.loc(), "no path of %s executes this store" % fn.name)
+            continue
         guards = [(vf.expr(fn, c), t) for c, t, br in es.guards_of(fn, s)]
         G = es.Guards(fn, s)
         cur = ("load", ("fld", vf.root_of(vf.expr(fn, s["ptr"])), "rtr_socket.version"))
